@@ -43,6 +43,30 @@ CHECKS = {
         note=TB + " Partial: eval.c is tied to the reference only by these runs; known findings F-C03-1 (dynamic scoping), F-C03-2 (return inside a match arm), F-C03-3 (array_push on literal arrays) are reported on every run; two evaluator defects and one transpiler defect found by this check were repaired.",
         technique="Lean 4 proof (scoping look-up lemma for all frame stacks) + differential correspondence evaluator / reference / compiled binary",
         design="6/C03"),
+    "C04": dict(
+        text=("Lean 4 theorem tc_sound_expr over the specification checker Tc and the reference semantics Sem: an expression built from literals, variables and the unary "
+              "and binary operators that the checker accepts at type t, evaluated in ANY environment that agrees with the checker's scope and with ANY fuel, never ends in a "
+              "type error or an undefined-variable error: it yields a value of type t, runs out of fuel, or (native configuration) stops at a division by zero - the "
+              "documented fault (progress + preservation by induction on fuel, operator typing via binArith_safe). With C02's arith_agree this carries to the VM handlers; "
+              "with C05's nonvoid_returns_all every accepted non-void function returns on every path. Not proved: soundness for calls, loops, arrays and structs, the two "
+              "code generators, the C compiler's acceptance of the generated C - for those the check is a search with the property's outcome classes as oracle: accepted "
+              "programs (random typed programs, C05 base programs, nested functions with scoped locals, tuple types, scoping and short-circuit families, functions whose "
+              "bytecode size sweeps across the 4096/8192 byte marks) through both pipelines: bytecode generation succeeds, the verifier accepts, VM execution ends "
+              "normally or in a documented fault, nanoc produces a binary that runs."),
+        note=TB + " Partial as designed (staged): the proved fragment is the operator language. Known finding F-C04-7 (nested functions do not compile natively) is reported on every run.",
+        technique="Lean 4 proof (type soundness of the operator fragment by induction on evaluation fuel) + pipeline-outcome search on both back ends",
+        design="6/C04"),
+    "C05": dict(
+        text=("Lean 4 theorems, one per rule of the property's catalogue, over the specification checker Tc (an executable transcription of the static rules), each in "
+              "inversion form so that the contrapositive rejects EVERY violating program whatever the surrounding code: arith/compare/logic/plus/unary operand types, "
+              "argument arity and types (args_arity, args_types, call_checked), unknown names, block and if scopes closed (out-of-scope names), set_requires_mut "
+              "(immutable let, parameter, global), nonvoid_returns_all and return_type, bool conditions of if/while/assert, field_defined, break_in_loop; and "
+              "no_artifact: for each of nanoc, nano_virt --run, nano_virt --emit-nvm a failed check means exit status non-zero, nothing written, nothing run, whatever "
+              "the other phases would say. Tie: the Lean checker and the three real tools are run on well-typed base programs and every single-point mutant of the "
+              "catalogue: Lean must accept every base and reject every mutant; each tool must exit non-zero with a diagnostic and write no file."),
+        note=TB + " Modelled, not verified: src/typechecker.c itself (6k lines) is represented by Tc and tied by accept/reject correspondence only. Two systemic defects found by this check were repaired (diagnostics that did not fail the compilation: 60 % of mutants were accepted by nano_virt); F-C05-4 (extern call in expression position outside unsafe) is a known finding. 'Use of a consumed resource value' is not in the mutation catalogue yet.",
+        technique="Lean 4 proof (inversion lemmas for every rule of the checker model; decision-logic theorem for the drivers) + mutation catalogue correspondence on three tools",
+        design="6/C05"),
     "C06": dict(
         text=("Lean 4 theorems over the gate logic of run_shadow_tests and phase 5 of compile_file (per shadow block: skipped or not, number of "
               "false assertions counted while its body and callees ran): the run fails iff some executed block saw a false assertion, for "
